@@ -40,6 +40,8 @@ ADJ = {
     'adj-ext-uid': {'h.a1': F(2, uid=0), 'i.a': F(7, uid=10)},
 }
 TREES.update(ADJ)
+# key values that look like numbers are still text (ext), and sort keys that are not selected
+TREES['numext'] = {'a.9': F(3), 'b.10': F(5), 'c.1a': F(7), 'd.a': F(1), 'e.010': F(9), 'f.9': F(11), 'g.10': F(2), 'h': F(4), 'i.-1': F(6), 'j.1e1': F(8)}
 # a bare column that is neither a key nor aggregated may show anything, but must not disturb the aggregates next to it
 BARE = [['size', 'min(size)', 'max(size)'], ['size', 'count(*)', 'sum(size)'], ['name', 'size', 'max(size)', 'min(size)', 'avg(size)']]
 WHERES = [(None, lambda e: True), ('size gt 2', lambda e: e['size'] > 2), ('size gt 99999999', lambda e: False)]
@@ -80,6 +82,14 @@ def groups(tier, seed):
             if len(kl) == 2:
                 yield {'tree': tname, 'keys': kl, 'cases': [{'aggs': AGGS[ai], 'where': 0, 'aggfirst': False, 'order': ob}
                                                             for ai in (0, 2) for ob in (None, kl[0])]}
+    # sort keys that are not in the select list: a grouping key, an aggregate
+    for tname in ('numext', 'small', 'rich'):
+        for k in KEYS:
+            yield {'tree': tname, 'keys': [k], 'cases': [{'hidden': h, 'desc': d, 'where': w} for h in ('key', 'sum', 'count') for d in (False, True) for w in (0, 1)]}
+    # a negated numeric key column keeps its sign in the group row
+    for tname in ('small', 'rich'):
+        for k in ('uid', 'length(name)'):
+            yield {'tree': tname, 'keys': [k], 'cases': [{'hidden': 'neg', 'desc': d, 'where': w} for d in (False, True) for w in (0, 1)]}
     for tname in ('small', 'rich'):
         for kl in keylists('quick'):
             if len(kl) == 1 or tier == 'thorough':
@@ -103,7 +113,7 @@ def groups(tier, seed):
 
 def single(case):
     return {'tree': case['tree'], 'keys': case['keys'],
-            'cases': [{k: case[k] for k in ('aggs', 'where', 'aggfirst', 'order', 'bare') if k in case}]}
+            'cases': [{k: case[k] for k in ('aggs', 'where', 'aggfirst', 'order', 'bare', 'hidden', 'desc') if k in case}]}
 
 
 def entries(root):
@@ -129,6 +139,60 @@ def sort_key(col, v):
     return (1, v)
 
 
+def hidden_order(env, root, group, c, keys, ents, wtext):
+    key = keys[0]
+    part = {}
+    for e in ents:
+        part.setdefault(e[key], []).append(e['size'])
+    w = (' where ' + wtext) if wtext else ''
+    d = ' desc' if c['desc'] else ''
+    if c['hidden'] == 'neg':
+        q = '-%s, %s, count(*) from .%s group by %s order by %s%s into list' % (key, key, w, key, key, d)
+        o = env.run([q], cwd=root)
+        rows = o.rows(3)
+        res = {'case': dict(c, tree=group['tree'], keys=keys, query=q), 'nt': len(part) >= 2, 'layer': 'negated-key', 'trans': len(part) + 1}
+        if o.rc != 0 or o.err or rows is None or len(rows) != len(part) or any(float(r[0]) != -float(r[1]) or str(len(part[r[1]])) != r[2] for r in rows):
+            res.update(status='viol', cls='negated-key-column', detail=dict(o.brief(), query=q), sig=('viol', 'neg'))
+        else:
+            res.update(status='ok', sig=tuple(rows))
+        return res
+    if c['hidden'] == 'key':
+        q = 'count(*), sum(size) from .%s group by %s order by %s%s into list' % (w, key, key, d)
+        order = sorted(part, key=lambda v: sort_key(key, v), reverse=c['desc'])
+        want = [[(str(len(part[v])), str(sum(part[v])))] for v in order]
+        ncols = 2
+    else:
+        agg, f = ('sum(size)', sum) if c['hidden'] == 'sum' else ('count(*)', len)
+        other = 'count(*)' if c['hidden'] == 'sum' else 'sum(size)'
+        g = len if c['hidden'] == 'sum' else sum
+        q = '%s, %s from .%s group by %s order by %s%s into list' % (key, other, w, key, agg, d)
+        # groups with equal sort values may come in any order: compare the sequence of sort values and the row set
+        want = None
+        ncols = 2
+    o = env.run([q], cwd=root)
+    rows = o.rows(ncols)
+    res = {'case': dict(c, tree=group['tree'], keys=keys, query=q), 'nt': len(part) >= 2, 'layer': 'hidden-sort-key', 'trans': len(part) + 1}
+    bad = None
+    if o.timeout or o.rc != 0 or o.err or rows is None or len(rows) != len(part):
+        bad = ('status-or-shape', o.brief())
+    elif c['hidden'] == 'key':
+        if [[tuple(r)] for r in rows] != want:
+            bad = ('group-order-by-unselected-key', {'got': rows[:8], 'expected': [x[0] for x in want][:8]})
+    else:
+        vals = {v: (f(part[v]), g(part[v])) for v in part}
+        if sorted(rows) != sorted((v, str(vals[v][1])) for v in part):
+            bad = ('group-aggregate-wrong', {'got': rows[:8]})
+        else:
+            seq = [vals[r[0]][0] for r in rows]
+            if seq != sorted(seq, reverse=c['desc']):
+                bad = ('group-order-by-unselected-aggregate', {'got': rows[:8], 'sort_values': seq[:8]})
+    if bad:
+        res.update(status='viol', cls=bad[0], detail=dict(bad[1], query=q), sig=('viol', bad[0]))
+    else:
+        res.update(status='ok', sig=tuple(rows))
+    return res
+
+
 def eval_group(env, group, tier):
     root = env.newdir('c8')
     core.materialise(root, TREES[group['tree']])
@@ -139,6 +203,9 @@ def eval_group(env, group, tier):
         for c in group['cases']:
             wtext, pred = WHERES[c['where']]
             ents = [e for e in allents if pred(e)]
+            if 'hidden' in c:
+                outs.append(hidden_order(env, root, group, c, keys, ents, wtext))
+                continue
             aggs = c['aggs']
             cols = (aggs + keys) if c['aggfirst'] else (keys + aggs)
             aggs = aggs[c.get('bare', 0):]      # leading bare columns are selected but not judged
